@@ -260,6 +260,7 @@ func c06eScenarios(thorough bool) []c06eScn {
 		{Name: "emitter: one connection closed by another thread", Conns: []c06eConn{{Peer: "P", Closer: "thread"}}},
 		{Name: "emitter: one connection closed from inside Connected", Conns: []c06eConn{{Peer: "P", Closer: "in-connected"}}},
 		{Name: "emitter: direct and limited connection of one peer, both closed", Conns: []c06eConn{{Peer: "P", Closer: "thread"}, {Peer: "P", Limited: true, Closer: "thread"}}},
+		{Name: "emitter: direct connection closes, limited one of the same peer stays", Conns: []c06eConn{{Peer: "P", Closer: "thread"}, {Peer: "P", Limited: true}}},
 		{Name: "emitter: connection closed by another thread, Close racing", Conns: []c06eConn{{Peer: "P", Closer: "thread"}}, Close: true},
 		{Name: "emitter: two peers, one closes inside Connected, one stays", Conns: []c06eConn{{Peer: "P", Closer: "in-connected"}, {Peer: "Q"}}},
 	}
